@@ -70,13 +70,26 @@ class _SAS:
     deserialize = _with_root_extra(B.ShardAccounts.deserialize, B.DepthBalanceInfo.deserialize)
 
 
+class _ShardStateView:
+    """ShardState.deserialize wraps an unsplit state as .shard_state_unsplit under the label '_': block.tlb's view of that alternative
+    is the state's own fields, so the view exposes them next to the label"""
+    def __init__(self, o):
+        inner = getattr(o, 'shard_state_unsplit', None)
+        self.__dict__.update((inner if inner is not None else o).__dict__)
+        self.type_ = o.type_
+
+
+class _SS:
+    deserialize = staticmethod(lambda s: _ShardStateView(B.ShardState.deserialize(s)))
+
+
 class _OL:
     deserialize = staticmethod(lambda s: _OutListView(T.OutList.deserialize(s)))
 
 
 CLS = {
     'BlkPrevInfoA': _BPA, 'BlkPrevInfoB': _BPB, 'OutList0': _OL, 'OutList1': _OL, 'OutList2': _OL, 'OutList3': _OL,
-    'OldMcBlocksInfo': _OMB, 'ShardAccounts': _SAS,
+    'OldMcBlocksInfo': _OMB, 'ShardAccounts': _SAS, 'ShardState': _SS,
     'ConfigParam1': Cf.ConfigParam1, 'ConfigParam2': Cf.ConfigParam2, 'ConfigParam3': Cf.ConfigParam3, 'ConfigParam4': Cf.ConfigParam4,
     'ConfigParam8': Cf.ConfigParam8, 'ConfigParam10': Cf.ConfigParam10, 'ConfigParam11': Cf.ConfigParam11, 'ConfigParam13': Cf.ConfigParam13,
     'ConfigParam14': Cf.ConfigParam14, 'ConfigParam20': Cf.ConfigParam20, 'ConfigParam21': Cf.ConfigParam21, 'ConfigParam22': Cf.ConfigParam22,
@@ -119,6 +132,8 @@ def tlb_cfg(types, emit='TRUE', pairs='FALSE'):
 
 def model_checks(tier):
     names = sorted(set(CLS) - {'Block'})        # Block is read in the decode direction only (its state update is not transcribed)
+    if os.environ.get('VERIF_ONLY_TYPES'):      # development aid: restrict the run to some types
+        names = [n for n in names if n in os.environ['VERIF_ONLY_TYPES'].split(',')]
     k = 8 if tier == 'quick' else 16
     chunks = [names[i::k] for i in range(k)]
     return [dict(name='tlb_g%d' % i, module='MC_Tlb.tla', gen=True, workers=2 if tier == 'quick' else 1, timeout=3000, heap='4g',
